@@ -3,3 +3,4 @@ import DdsModel.Sym
 import DdsModel.PyVal
 import DdsModel.Args
 import DdsModel.Sig
+import DdsModel.Auth
